@@ -17,7 +17,9 @@ The per-pattern statements are checked on ALL 2^16 patterns by kernel
 enumeration (`ImathVerif/Enum/C03`).  Compound arithmetic (`a op= b`) and text
 I/O involve the hardware float operation and libstdc++; nothing about them is
 provable here — they are decided by exhaustive correspondence in
-tools/props/c03.py, as is the tie of these models to the real code.
+tools/props/c03.py (arithmetic additionally by a model-free, bit-exact
+self-check of `x op= y` against `half (float (x) op float (y))` inside the
+harness), as is the tie of these models to the real code.
 -/
 namespace ImathVerif.Half.C03
 open ImathVerif ImathVerif.Half ImathVerif.Gen ImathVerif.Enum.C03 ImathVerif.HalfFunction
@@ -75,6 +77,40 @@ theorem class_float_agree : ∀ h, h < 65536 →
     (isNegative h = true ↔ h2f h / 2147483648 = 1) := by
   intro h hh
   exact of_decide_eq_true (p_class32_all h hh)
+
+/-- the same agreement in the vocabulary of `std::fpclassify (float (h))` /
+`std::signbit (float (h))`: `fpClass32` is the classifier's reading of a binary32
+pattern (0 zero, 1 normal, 2 subnormal, 3 infinite, 4 nan).  The check compares
+`fpClass32 (h2f h)` with the platform's `std::fpclassify` of the real
+`float (h)` for all 2^16 patterns (`classf_all`), so the clause "agrees with the
+float classification of its value" is decided against libm's classifier, not
+against our own decoding only. -/
+theorem fpclassify_agree : ∀ h, h < 65536 →
+    h2f h < 4294967296 ∧
+    (fpClass32 (h2f h) = 0 ↔ isZero h = true) ∧
+    (fpClass32 (h2f h) = 1 ↔ (isNormalized h = true ∨ isDenormalized h = true)) ∧
+    fpClass32 (h2f h) ≠ 2 ∧
+    (fpClass32 (h2f h) = 3 ↔ isInfinity h = true) ∧
+    (fpClass32 (h2f h) = 4 ↔ isNan h = true) ∧
+    (h2f h / 2147483648 % 2 = 1 ↔ isNegative h = true) := by
+  intro h hh
+  obtain ⟨z, ns, nd, i, n, sg⟩ := class_float_agree h hh
+  obtain ⟨e1, l1⟩ := h2f_split h hh
+  have hs : h / 32768 ≤ 1 := by omega
+  have hb : h2f h < 4294967296 := by omega
+  have hsg : h2f h / 2147483648 % 2 = 1 ↔ isNegative h = true := by rw [sg]; omega
+  clear e1 l1 sg
+  have hE256 : h2f h / 8388608 % 256 < 256 := Nat.mod_lt _ (by decide)
+  simp only [f32exp, f32man] at z ns nd i n
+  unfold fpClass32
+  generalize h2f h / 8388608 % 256 = E at *
+  generalize h2f h % 8388608 = M at *
+  refine ⟨hb, ?_, ?_, ?_, ?_, ?_, hsg⟩
+  · rw [z]; by_cases hE0 : E = 0 <;> by_cases hE : E = 255 <;> by_cases hM : M = 0 <;> simp [hE0, hE, hM] <;> omega
+  · rw [nd]; by_cases hE0 : E = 0 <;> by_cases hE : E = 255 <;> by_cases hM : M = 0 <;> simp [hE0, hE, hM] <;> omega
+  · by_cases hE0 : E = 0 <;> by_cases hE : E = 255 <;> by_cases hM : M = 0 <;> simp [hE0, hE, hM] <;> omega
+  · rw [i]; by_cases hE0 : E = 0 <;> by_cases hE : E = 255 <;> by_cases hM : M = 0 <;> simp [hE0, hE, hM] <;> omega
+  · rw [n]; by_cases hE0 : E = 0 <;> by_cases hE : E = 255 <;> by_cases hM : M = 0 <;> simp [hE0, hE, hM] <;> omega
 
 /-! ## numeric_limits<half> and the HALF_* macros are the true extremes
 
@@ -376,10 +412,103 @@ theorem halfLt_iff_value : ∀ a b, a < 65536 → b < 65536 →
     (isNan a = true ∨ isNan b = true → halfLt a b = false) :=
   HalfFunction.halfLt_iff_value'
 
+/-- the constructor's DEFAULT domain arguments `domainMin = -HALF_MAX`,
+`domainMax = HALF_MAX` (halfFunction.h 73-80; a double macro, negated, converted
+through `half (float)`) are exactly `[lowest(), max()]`: no finite half is
+outside, so a one-argument `halfFunction<T> hf (f)` tabulates `f` on every finite
+half (limits ↔ conversion ↔ halfFunction).  The check runs the real one- and
+two-argument constructors against this model domain for all 2^16 patterns. -/
+theorem halfFunction_default_domain :
+    macro_HALF_MAX_f32 < 2147483648 ∧
+    f2h (macro_HALF_MAX_f32 + 2147483648) = limits_lowest ∧ f2h macro_HALF_MAX_f32 = limits_max ∧
+    (∀ h, h < 65536 → isFinite h = true → halfLt h limits_lowest = false ∧ halfLt limits_max h = false) ∧
+    (∀ {T : Type} [Inhabited T] (p : Params T),
+        p.domainMin = f2h (macro_HALF_MAX_f32 + 2147483648) → p.domainMax = f2h macro_HALF_MAX_f32 →
+        ∀ h, h < 65536 → isFinite h = true → apply p h = p.f h) := by
+  have e1 : f2h (macro_HALF_MAX_f32 + 2147483648) = limits_lowest := by decide +kernel
+  have e2 : f2h macro_HALF_MAX_f32 = limits_max := by decide +kernel
+  have hin : ∀ h, h < 65536 → isFinite h = true → halfLt h limits_lowest = false ∧ halfLt limits_max h = false := by
+    intro h hh hf
+    obtain ⟨hn, _⟩ := not_inf_nan_of_finite h hf
+    obtain ⟨hlo, hhi⟩ := lowest_is_neg_max.2.2 h hh hf
+    have nlo : isNan limits_lowest = false := by decide
+    have nhi : isNan limits_max = false := by decide
+    have i1 := (halfLt_iff_value h limits_lowest hh (by decide)).1 hn nlo
+    have i2 := (halfLt_iff_value limits_max h (by decide) hh).1 nhi hn
+    constructor
+    · cases hc : halfLt h limits_lowest
+      · rfl
+      · have := i1.1 hc; omega
+    · cases hc : halfLt limits_max h
+      · rfl
+      · have := i2.1 hc; omega
+  refine ⟨by decide, e1, e2, hin, ?_⟩
+  intro T _ p h1 h2 h hh hf
+  obtain ⟨a, b⟩ := hin h hh hf
+  exact (lut_spec p h hh).2.2.2.2.2 hf (by rw [h1, e1]; exact a) (by rw [h2, e2]; exact b)
+
+/-! ## behaviour outside the property's claim, stated so that it is on record
+
+`round(n)` is claimed only for finite or infinite inputs.  What the code does
+with a NaN: the payload is truncated like a significand, the result is never
+finite, and it is an INFINITY exactly when the truncated-away low `10-n` bits
+were the whole payload (`0x7c01.round(0) = +inf`, and every NaN whose payload
+is below `2^(10-n)`); for `n ≥ 10` (`round_identity`) every NaN is kept. -/
+theorem round_nan : ∀ n, n ≤ 9 → ∀ h, h < 65536 → isNan h = true →
+    roundN n h = h - h % runit n ∧
+    roundN n h / 32768 = h / 32768 ∧ isFinite (roundN n h) = false ∧
+    (isInfinity (roundN n h) = true ↔ h % 1024 < runit n) ∧
+    (isNan (roundN n h) = true ↔ runit n ≤ h % 1024) := by
+  intro n hn h hh hnan
+  have hr := (round_spec n hn h hh).2.2.2.2.2 hnan
+  have hs := (round_spec n hn h hh).2.1
+  rw [hr] at hs ⊢
+  have hx : h / 1024 % 32 = 31 ∧ h % 1024 ≠ 0 := by
+    unfold isNan at hnan
+    rw [exponent_eq, mantissa_eq] at hnan
+    simpa using hnan
+  unfold isFinite isInfinity isNan
+  simp only [exponent_eq, mantissa_eq]
+  have hru : runit n = 1024 ∨ runit n = 512 ∨ runit n = 256 ∨ runit n = 128 ∨ runit n = 64 ∨ runit n = 32 ∨
+      runit n = 16 ∨ runit n = 8 ∨ runit n = 4 ∨ runit n = 2 := by
+    have hcases : n = 0 ∨ n = 1 ∨ n = 2 ∨ n = 3 ∨ n = 4 ∨ n = 5 ∨ n = 6 ∨ n = 7 ∨ n = 8 ∨ n = 9 := by omega
+    rcases hcases with e | e | e | e | e | e | e | e | e | e <;> subst e <;> decide
+  generalize runit n = r at *
+  rcases hru with e | e | e | e | e | e | e | e | e | e <;> subst e <;> simp <;> omega
+
+/-- `numeric_limits<half>` members that are not "extremes" but are objectively
+determined: a specialised, non-integer, inexact, non-modulo type.
+(`is_iec559 = false`, `traps = true`, `tinyness_before = false`,
+`has_denorm_loss = false` are dumped into Gen/HalfLimits.lean but nothing is
+claimed about them; `is_bounded`: next theorem.) -/
+theorem other_members :
+    limits_is_specialized = 1 ∧ limits_is_integer = 0 ∧ limits_is_exact = 0 ∧ limits_is_modulo = 0 := by
+  decide
+
+/-- OBSERVATION, outside the property (its list of extremes does not include the
+classification traits): the type IS bounded — every finite half lies in
+`[lowest(), max()]`, 2^16 patterns in all — whatever `is_bounded` says.  The
+header currently says `is_bounded = false` (the check reports the regenerated
+value in `extra.observed_outside_property`); this statement holds for either
+value, so neither the present header nor a corrected one fails it. -/
+theorem is_bounded_observed :
+    (∀ h, h < 65536 → isFinite h = true → (sval limits_lowest ≤ sval h ∧ sval h ≤ sval limits_max)) ∧
+    (limits_is_bounded = 0 ∨ limits_is_bounded = 1) := by
+  exact ⟨lowest_is_neg_max.2.2, by decide⟩
+
 -- non-vacuity of the hypotheses used above
 example : (0x3c00 : Nat) < 65536 ∧ isNan 0x3c00 = false ∧ isFinite 0x3c00 = true := by decide
 example : isNan 0x7e00 = true ∧ isInfinity 0xfc00 = true ∧ isNegative 0xfc00 = true := by decide
 example : rcand 0 (mag 0x7bff) ≥ 0x7c00 ∧ rcand 3 (mag 0x3c40) < 0x7c00 := by decide
 example : roundN 0 0x7bff = 0x7800 ∧ roundN 0 0x7c01 = 0x7c00 ∧ roundN 3 0x3c40 = 0x3c80 := by decide
+-- round_nan: both outcomes occur (payload 0x001 is lost at n = 9, payload 0x200 survives n = 1)
+example : isNan 0xfc01 = true ∧ roundN 9 0xfc01 = 0xfc00 ∧ isInfinity (roundN 9 0xfc01) = true ∧
+    isNan 0x7e00 = true ∧ isNan (roundN 1 0x7e00) = true := by decide
+-- fpclassify_agree: every class occurs (zero, denormal -> normal float, normal, inf, nan)
+example : fpClass32 (h2f 0x8000) = 0 ∧ fpClass32 (h2f 0x0001) = 1 ∧ fpClass32 (h2f 0x3c00) = 1 ∧
+    fpClass32 (h2f 0xfc00) = 3 ∧ fpClass32 (h2f 0x7e00) = 4 := by decide
+-- halfFunction_default_domain: the hypotheses are satisfiable (the default parameters themselves)
+example : ∃ p : Params Nat, p.domainMin = f2h (macro_HALF_MAX_f32 + 2147483648) ∧ p.domainMax = f2h macro_HALF_MAX_f32 :=
+  ⟨⟨id, f2h (macro_HALF_MAX_f32 + 2147483648), f2h macro_HALF_MAX_f32, 0, 0, 0, 0⟩, rfl, rfl⟩
 
 end ImathVerif.Half.C03
